@@ -125,6 +125,11 @@ theorem foldBin_shift_total (op : BinOp) (hop : op = .shl ∨ op = .shr) (sz : N
   · simp [foldBin, binary, binaryRaw]
   · cases sg <;> simp [foldBin, binary, binaryRaw, Ty.isSigned]
 
+theorem castInt_8 (sg : Bool) {x : Nat} (hx : x < W) : castInt 8 sg x = x := by
+  have := castInt_nat (t := ⟨64, sg⟩) (by simp [IntTy.Arith]) x
+  rw [W_eq] at hx
+  cases sg <;> simp [wrap, repr64] at this <;> rw [this] <;> omega
+
 end Part2d
 
 /-! ## Part 3: the invariant and the induction over `eval` -/
